@@ -147,3 +147,12 @@ Definition lss_case_trace (c : bool) (kvs : list (nat * bool)) (ops : list lop) 
   end.
 Definition check_lss_case (x : bool * list (nat * bool) * list lop * Z) : bool :=
   let '(c, kvs, ops, expected) := x in Z.eqb (hash_zll 0 (lss_case_trace c kvs ops)) expected.
+
+(* ---- SubmodelElementList._check_constraints: a history of single additions -------------------- *)
+Definition check_sml_case (x : lcfg * list elem * list Z * Z) : bool :=
+  let '(c, es, expected, n) := x in
+  match cfg_check c with
+  | Some e => zl_eqb [enc_err (Some e)] expected
+  | None => let '(l, o) := sml_adds c [] es in
+            zl_eqb (map enc_err o) expected && Z.eqb (len l) n
+  end.
